@@ -99,3 +99,57 @@ Example C11_families_nonempty :
   str_in (s "0XBe9ul") (int_consts integer_suffixes) = true /\ str_in (s "12.25e-12L") (float_consts float_suffixes) = true /\
   guard_int (s "0XBe9ul") (s ";") = true /\ guard_float (s "12.25e-12L") = true.
 Proof. vm_compute. repeat split. Qed.
+
+(* ---- UNBOUNDED accept theorems for integer constants (Proofs/CConstUnbounded.v): all Unicode class oracles uw ud,
+   digit strings of ANY length, every suffix of the source's table, every continuation that starts with a delimiter
+   (`delim`: end of input, or an ASCII character that is no letter, digit, underscore or dot).
+   `lex_one_ok_u uw ud ty w rest` = exists x, step uw ud (init (w ++ rest)) = StepItem (ITok {ty, line 1, col 1, Some w} 0 |w|) x
+   /\ errs x = [] ; for uw = ud = nouni it implies the boolean lex_one_ok of the bounded theorems (C11_unbounded_implies_bounded_form). *)
+From NV Require Import Proofs.CConstUnbounded.
+
+Theorem C11_accept_decimal_unbounded : forall (uw ud : N -> bool) d ds sfx rest,
+  nonzero_digit d = true -> forallb ascii_digit ds = true -> str_in sfx integer_suffixes = true -> delim rest = true ->
+  lex_one_ok_u uw ud (s "CONSTANT") ((d :: ds) ++ sfx) rest.
+Proof. exact accept_decimal. Qed.
+Print Assumptions C11_accept_decimal_unbounded.
+
+Theorem C11_accept_octal_unbounded : forall (uw ud : N -> bool) os sfx rest,
+  forallb is_oct os = true -> str_in sfx integer_suffixes = true -> delim rest = true ->
+  lex_one_ok_u uw ud (s "CONSTANT") ((48%N :: os) ++ sfx) rest.
+Proof. exact accept_octal. Qed.
+Print Assumptions C11_accept_octal_unbounded.
+
+Theorem C11_accept_binary_unbounded : forall (uw ud : N -> bool) b i bits sfx rest,
+  is_bB b = true -> forallb is_bin (i :: bits) = true -> str_in sfx integer_suffixes = true -> delim rest = true ->
+  lex_one_ok_u uw ud (s "CONSTANT") ((48%N :: b :: i :: bits) ++ sfx) rest.
+Proof. exact accept_binary. Qed.
+Print Assumptions C11_accept_binary_unbounded.
+
+(* hexadecimal: under the two guards that exclude exactly the known findings C11-hex-b-digits / C11-hex-e-suffix-sign
+   (and the non-constant 0x1e+1) *)
+Theorem C11_accept_hex_unbounded_partial : forall (uw ud : N -> bool) xc hs sfx rest,
+  is_xX xc = true -> forallb is_hex hs = true -> hs <> [] -> str_in sfx integer_suffixes = true -> delim rest = true ->
+  hex_guard_k1 hs = true -> hex_guard_e hs rest = true ->
+  lex_one_ok_u uw ud (s "CONSTANT") ((48%N :: xc :: hs) ++ sfx) rest.
+Proof. exact accept_hex_partial. Qed.
+Print Assumptions C11_accept_hex_unbounded_partial.
+
+(* the first guard IS the negation of the refuted shape K1 of Spec/CConst.v; the second implies the negation of
+   shape_hex_e_suffix (it also excludes `0x1e+1` without suffix: one preprocessing number in C, family M4 here) *)
+Theorem C11_hex_guard_k1_is_not_shape_k1 : forall xc hs sfx, is_xX xc = true -> sfx_ok sfx = true ->
+  shape_k1 ((48%N :: xc :: hs) ++ sfx) = negb (hex_guard_k1 hs).
+Proof. exact hex_guard_k1_is_not_shape_k1. Qed.
+Print Assumptions C11_hex_guard_k1_is_not_shape_k1.
+Theorem C11_hex_guard_e_excludes_shape : forall xc hs sfx rest, forallb is_hex hs = true -> sfx_ok sfx = true ->
+  hex_guard_e hs rest = true -> shape_hex_e_suffix ((48%N :: xc :: hs) ++ sfx) rest = false.
+Proof. exact hex_guard_e_not_shape. Qed.
+Print Assumptions C11_hex_guard_e_excludes_shape.
+
+(* every suffix of the source's table satisfies sfx_ok (ASCII letters/digits, first letter no hex digit, none of eExXpPbB) *)
+Theorem C11_integer_suffixes_ok : forallb sfx_ok integer_suffixes = true.
+Proof. exact integer_suffixes_ok. Qed.
+Print Assumptions C11_integer_suffixes_ok.
+
+Theorem C11_unbounded_implies_bounded_form : forall ty w rest, lex_one_ok_u nouni nouni ty w rest -> lex_one_ok ty w rest = true.
+Proof. exact lex_one_ok_of_u. Qed.
+Print Assumptions C11_unbounded_implies_bounded_form.
